@@ -2108,11 +2108,8 @@ class Point:
             x_str = "%.12G" % self.x
         except TypeError:
             return self.__repr__()
-        if "." in x_str:
-            x_str = x_str.rstrip("0").rstrip(".")
+        # %G already removes trailing zeros, the zeros of an exponent (1.5E-10) are significant.
         y_str = "%.12G" % self.y
-        if "." in y_str:
-            y_str = y_str.rstrip("0").rstrip(".")
         return "%s,%s" % (x_str, y_str)
 
     def __imul__(self, other):
